@@ -78,6 +78,7 @@ def rerun(ctx, case, reps=3):
 
 def run(ctx):
     ctx.static_and_proofs("api")
+    __import__("props.apishape", fromlist=["x"]).check_api_shape(ctx)  # structural tie of the Launch order (runPlan/Start/Wait)
     if ctx.replay:
         rp = json.load(open(ctx.replay))
         spec = os.path.join(ctx.work, "replay_spec.json")
